@@ -22,6 +22,7 @@ pub const REQUIRED: &[&str] = &[
     "variance_is_ok",
     "variance_err_ill_conditioned",
     "variance_err_not_enough_samples",
+    "initial_params_column_major",
 ];
 
 pub fn check(c: &Case, obs: &mut Obs) {
@@ -472,7 +473,10 @@ macro_rules! adapters {
                     .max_iterations(1 + k.pick(40) as u64)
                     .gradient_tolerance(F::of(if k.rare() { BAD0[k.pick(BAD0.len())] } else { [1e-3, 1e-1][k.pick(2)] }));
                 if k.pick(3) == 2 {
-                    params = params.initial_params(Array2::from_shape_fn((p + intercept as usize, nclass), |(i, j)| F::of((i + 2 * j) as f64 * 0.125 - 0.25)));
+                    let init = Array2::from_shape_fn((p + intercept as usize, nclass), |(i, j)| F::of((i + 2 * j) as f64 * 0.125 - 0.25));
+                    let layout = k.pick(3);
+                    obs.class_if(layout > 0, "initial_params_column_major");
+                    params = params.initial_params(relayout(&init, layout));
                     obs.class("with_initial_params");
                 }
                 let y: Array1<usize> = labels(c, nclass).into_iter().map(|l| 10 * l + 1).collect();
